@@ -79,6 +79,7 @@ func init() {
 }
 
 func runC32(c *Ctx) {
+	c32ExpectedVotes(c)
 	// Verify: dispatch
 	if fn := c.Fn(strcT + ".Verify"); fn != nil {
 		e := NewE1(c, fn)
